@@ -22,7 +22,7 @@ func TestVerif(t *testing.T) {
 	driver.Main(t, driver.Harness{
 		ID:    "C09",
 		Level: "model_checking",
-		Rule: "history = push every node of a DAG (curated referrer shapes + every U(4) shape with a subject) ; up to 2 (thorough 3) tagging steps from {tag x r1, tag y r1 (moves the tag), tag z r2, untag r1} over every choice of manifests x, y and of any node z (blobs included) ; " +
+		Rule: "history = push every node of a DAG (curated referrer shapes, a lone image, blobs only + every U(4) shape with a subject) ; up to 2 (thorough 3) tagging steps from {tag x r1, tag y r1 (moves the tag), tag z r2, untag r1} over every choice of manifests x, y and of any node z (blobs included) ; " +
 			"optional stray blob files ; then up to 2 operations from {Delete(every descriptor), GC}; AutoGC on and off; map-iteration order deviations O<=1 (thorough 2) at the Delete/Remove/Predecessors/gcIndex map ranges. " +
 			"After every operation Exists/Resolve/Tags/Predecessors and the blobs/ listing are compared with a least-fixed-point model written from the property text; termination = file-system operation budget per call. " +
 			"non-trivial = distinct history in which Delete or GC removed at least one node other than the named target",
@@ -64,6 +64,17 @@ func shapes(th bool) []*DAG {
 	ex := e.Blob("Ex", "application/vnd.oci.empty.v1+json", "{}")
 	e.Manifest("R", cx, []int{ex}, ManifestOpt{Subject: em, ArtifactType: "application/vnd.test.sig"})
 	out = append(out, e.MergeSameDigest())
+	// a single image and nothing else: deleting its manifest leaves an index that lists nothing
+	f := &DAG{Name: "lone-image"}
+	fc := f.Blob("C", MTConfig, "{}")
+	fl := f.Blob("L", MTLayer, "l")
+	f.Manifest("M", fc, []int{fl}, ManifestOpt{Subject: -1})
+	out = append(out, f)
+	// blobs only: the index never lists anything
+	g := &DAG{Name: "blobs-only"}
+	g.Blob("C", MTConfig, "{}")
+	g.Blob("L", MTLayer, "l")
+	out = append(out, g)
 	return out
 }
 
@@ -204,6 +215,9 @@ func history(c *driver.Ctx, d *DAG, autogc, stray bool, tagSteps, opSteps int) (
 			case 0:
 				continue // no step
 			case 1:
+				if len(manifests) == 0 {
+					continue
+				}
 				op = Op{Kind: "tag", Node: manifests[vs.Choose(len(manifests), vs.KInput, "node")], Ref: "r1"}
 			case 2:
 				// any node: Tag accepts every stored descriptor, a layer or config can carry a tag of its own
